@@ -375,10 +375,13 @@ PROPS = {
                   "and/or the configuration, sends SIGHUP, waits until a sentinel zone whose SOA serial is the step number "
                   "shows the reload is visible, then queries every zone over UDP; reference state machine per exact zone "
                   "name {absent, failed-never-loaded, serving(version)}; versions are carried in the SOA serial",
-        rule="32 (quick) / 320 (thorough) daemon histories of 6-14 (quick) / 10-40 (thorough) reload steps over six "
+        rule="96 (quick) / 640 (thorough) daemon histories of 6-14 (quick) / 10-40 (thorough) reload steps over six "
              "nested and unrelated zone names (z., sub.z., a.sub.z., b.z., other., deep.er.other.); per step each zone "
              "with probability 0.3 gets a new file version (valid / syntax error / missing apex NS / file removed) and "
-             "with probability 0.2 is added to or removed from the configuration at a random position; after every load "
+             "with probability 0.2 is added to or removed from the configuration at a random position, with probability 0.1 "
+             "gets a newer version staged under its other path with an mtime 5 s OLDER than the file loaded in that step, and "
+             "with probability 0.1 the configuration switches to the staged path (a changed path must be loaded whatever the "
+             "mtimes say; no file's mtime ever goes backwards); after every load "
              "every zone is queried for its SOA: serving(v) needs an authoritative SOA with serial v owned by the zone, "
              "never-loaded needs SERVFAIL, absent needs the answer of the longest configured ancestor (REFUSED / "
              "SERVFAIL / NXDOMAIN with the ancestor's current SOA). distinct = (zone, observed state class, initial "
